@@ -88,7 +88,7 @@ CONSTANTS Family,       \* "C14" | "C26" | "C06"
           FirstBase,    \* C14: the first action writes the base version
           OmitSource,   \* runtime option OmitMetricSource: every Metric.Source is ""
           EmitCases,    \* print every maximal history as a CASE line
-          Prefixes,     \* {} or the set of action sequences the history may follow (scripts and their prefixes)
+          ScriptNext,   \* <<>> or, for replaying given scripts, [history key -> sequence of the action keys that may follow]
           DEV_DupeKeyIncludesSource, DEV_DupeKeyIncludesType, DEV_AddDropsExpiry,
           DEV_PartialRegistration, DEV_KindCheckAgainstFirst, DEV_RegisterErrorNotCounted
 
@@ -448,10 +448,15 @@ UnloadUpd(n) ==
   /\ tally' = [tally EXCEPT !.unloads[n] = @ + 1]
   /\ ev' = Append(ev, <<"unload", n>>)
 
-Acts == [i \in 1..Len(h) |-> h[i].a]
+\* scripts are given as a trie keyed by strings (one hashed record lookup per step)
+ActKey(a) == a.op \o ":" \o a.name \o ":" \o a.to \o ":" \o a.cid \o ":" \o a.line
+RECURSIVE HKeyFrom(_)
+HKeyFrom(k) == IF k = 0 THEN "^" ELSE HKeyFrom(k - 1) \o "|" \o ActKey(h[k].a)
+HKey == HKeyFrom(Len(h))
+Scripted == ScriptNext # <<>>
 Allowed(a) == /\ Len(h) < MaxOps
               /\ a \in EnvActions
-              /\ (Prefixes # {} => Append(Acts, a) \in Prefixes)
+              /\ (Scripted => \E k \in 1..Len(ScriptNext[HKey]) : ScriptNext[HKey][k] = ActKey(a))
 
 Env(a) ==
   /\ pc = "idle" /\ Allowed(a)
@@ -712,7 +717,7 @@ ViewOf(p) ==
 SoloOK == pc = "idle" => \A p \in Loaded : ViewOf(p) = solo[p]
 
 -----------------------------------------------------------------------------
-Terminal == pc = "idle" /\ (IF Prefixes # {} THEN \A a \in EnvActions : Append(Acts, a) \notin Prefixes ELSE Len(h) = MaxOps)
+Terminal == pc = "idle" /\ (IF Scripted THEN ScriptNext[HKey] = <<>> ELSE Len(h) = MaxOps)
 Emit == (EmitCases /\ Terminal) =>
           PrintT(<<"CASE", ToJson([fam |-> Family, assign |-> assign, h |-> h, fired |-> fired])>>)
 \* fingerprint without the history (property configurations)
